@@ -6,7 +6,14 @@ CLAIMED = {
         "text": "Exhaustive over the MIR of every compilation unit cargo builds for the workspace (x86_64-linux cfg): no path in the over-approximating call graph from any workspace function to an association-creating network sink except through harper_ls::main (whose listener address is a constant loopback literal), to a file-modifying sink except through save_dict/save_stats (destinations traced to the three configured paths), or to a process launch except under the HarperOpen command. A clean result is sound for the analysed MIR because dispatch is over-approximated.",
         "note": "Trusted: rustc's MIR and callee resolution; std/libc/tree-sitter C code are leaves without MIR; only the host cfg is analysed; sinks are association-creating operations (reads/writes on an already open descriptor are what the server is for).",
     },
+    "C15": {
+        "level": "other",
+        "ref": "DESIGN.md section 3, C15",
+        "technique": "sibling-agreement / delegation rules over resolved callees and receiver provenance in the MIR of every Dictionary impl",
+        "text": "Decides the agreement-by-delegation clauses exactly: every *_str query of all four Dictionary impls reaches only the same-named char-slice query of its own receiver; every exact query of FstDictionary delegates to the same-named query of full_dict (built from the same word vector as the FST); every MergedDictionary query folds the same-named child query. This is what makes the three back-ends answer exact queries identically for every string; it is not a statement about fuzzy search.",
+        "note": "Not decided (value-level): Levenshtein soundness/completeness, ordering and caps of fuzzy results, the positional zip in FstDictionary::fuzzy_match, u8 overflow for very long words.",
+    },
 }
 
 _TODO = "static rules for this property are specified in DESIGN.md section 3 but not yet implemented and self-tested; unclaimed until they are"
-NOT_APPLICABLE = {k: _TODO for k in ["C01", "C02", "C03", "C04", "C05", "C06", "C07", "C08", "C09", "C11", "C12", "C13", "C14", "C15", "C16", "C17", "C18", "C19"]}
+NOT_APPLICABLE = {k: _TODO for k in ["C01", "C02", "C03", "C04", "C05", "C06", "C07", "C08", "C09", "C11", "C12", "C13", "C14", "C16", "C17", "C18", "C19"]}
